@@ -78,6 +78,16 @@ class Record:
         return "%s(%s)" % (self.name, ", ".join("%s=%r" % kv for kv in sorted(self.kwargs.items())))
 
 
+class Closure:
+    """A lambda together with the environment it was created in."""
+
+    def __init__(self, node, env, func):
+        self.node, self.env, self.func = node, env, func
+
+    def __repr__(self):
+        return "<lambda>"
+
+
 class _Return(Exception):
     def __init__(self, value):
         self.value = value
@@ -259,6 +269,20 @@ class Interp:
                 if item.optional_vars is not None:
                     self.assign(item.optional_vars, v, env, f)
             self.exec_block(st.body, env, f)
+        elif isinstance(st, ast.While):
+            rounds = 0
+            while self.decide(self.eval(st.test, env, f), norm(st.test)):
+                rounds += 1
+                if rounds > 12:
+                    raise Unsupported("while loop does not terminate within 12 abstract iterations (%s)" % norm(st.test))
+                try:
+                    self.exec_block(st.body, env, f)
+                except _Continue:
+                    continue
+                except _Break:
+                    break
+            else:
+                self.exec_block(st.orelse, env, f)
         elif isinstance(st, ast.Try):
             # abstract runs raise only through explicit `raise`; handlers that name
             # the raised exception class (or catch everything) take over
@@ -384,6 +408,9 @@ class Interp:
                 if isinstance(b, dict) or all(isinstance(x, (str, int, type(None))) for x in b):
                     r = a in b
                     return r if isinstance(op, ast.In) else (not r)
+            if isinstance(b, dict) and isinstance(a, tuple) and all(isinstance(x, (str, int, type(None))) for x in a):
+                r = a in b
+                return r if isinstance(op, ast.In) else (not r)
             if isinstance(b, (tuple, list)):
                 # membership is identity-or-equality: decidable for an empty
                 # container and when the very same abstract object is in it
@@ -467,9 +494,21 @@ class Interp:
             return self.eval(e.orelse, env, f)
         if isinstance(e, ast.Subscript):
             base = self.eval(e.value, env, f)
-            key = self.eval(e.slice, env, f)
+            key = None if isinstance(e.slice, ast.Slice) else self.eval(e.slice, env, f)
+            if isinstance(e.slice, ast.Slice) and base is not TOP:
+                key = 0
             if base is TOP or key is TOP:
                 return TOP
+            if isinstance(base, (tuple, list)) and isinstance(e.slice, ast.Slice):
+                lo = None if e.slice.lower is None else self.eval(e.slice.lower, env, f)
+                hi = None if e.slice.upper is None else self.eval(e.slice.upper, env, f)
+                if e.slice.step is None and (lo is None or isinstance(lo, int)) and (hi is None or isinstance(hi, int)):
+                    return base[lo:hi]
+                return TOP
+            if isinstance(base, dict) and isinstance(key, tuple) and all(isinstance(x, (str, int, type(None))) for x in key):
+                if key in base:
+                    return base[key]
+                raise _Raise("KeyError")
             if isinstance(base, (tuple, list)) and isinstance(key, int):
                 try:
                     return base[key]
@@ -483,7 +522,7 @@ class Interp:
         if isinstance(e, ast.Call):
             return self.eval_call(e, env, f)
         if isinstance(e, ast.Lambda):
-            return TOP
+            return Closure(e, env, f)
         if isinstance(e, (ast.ListComp, ast.GeneratorExp)):
             out = []
             ok = [True]
@@ -574,6 +613,34 @@ class Interp:
                 if v is None:
                     raise _Raise("TypeError")
                 return TOP
+            if n == "sorted" and args and isinstance(args[0], (list, tuple)):
+                keyf = kwargs.get("key")
+                rev = kwargs.get("reverse", False)
+                if keyf is None:
+                    keys = list(args[0])
+                elif isinstance(keyf, Closure) and len(keyf.node.args.args) == 1:
+                    keys = []
+                    for item in args[0]:
+                        sub = dict(keyf.env)
+                        sub[keyf.node.args.args[0].arg] = item
+                        keys.append(self.eval(keyf.node.body, sub, keyf.func))
+                else:
+                    return TOP
+                if not all(isinstance(k, (int, float)) and not isinstance(k, bool) for k in keys) or rev not in (True, False):
+                    return TOP
+                order = sorted(range(len(keys)), key=lambda i: keys[i], reverse=rev)
+                return [args[0][i] for i in order]
+            if n in ("OrderedDict",) and len(args) <= 1:
+                d = {}
+                if args:
+                    if not isinstance(args[0], (list, tuple)):
+                        return TOP
+                    for kv in args[0]:
+                        if not (isinstance(kv, tuple) and len(kv) == 2):
+                            return TOP
+                        d[kv[0]] = kv[1]
+                d.update(kwargs)
+                return d
             if n in ("tuple", "list"):
                 if not args:
                     return () if n == "tuple" else []
@@ -635,6 +702,19 @@ class Interp:
             if isinstance(base, list) and m == "append" and args:
                 base.append(args[0])
                 return None
+            if isinstance(base, list) and m == "sort":
+                keyf = kwargs.get("key")
+                if isinstance(keyf, Closure) and len(keyf.node.args.args) == 1:
+                    keys = []
+                    for item in base:
+                        sub = dict(keyf.env)
+                        sub[keyf.node.args.args[0].arg] = item
+                        keys.append(self.eval(keyf.node.body, sub, keyf.func))
+                    if all(isinstance(k, (int, float)) and not isinstance(k, bool) for k in keys):
+                        order = sorted(range(len(keys)), key=lambda i: keys[i], reverse=bool(kwargs.get("reverse", False)))
+                        base[:] = [base[i] for i in order]
+                        return None
+                raise Unsupported("list.sort with an uninterpretable key")
             if isinstance(base, dict):
                 if m == "items":
                     return [(k, v) for k, v in base.items()]
